@@ -1,8 +1,13 @@
 """C14 — run-length encoding is lossless and canonical: correspondence of the implementation with the Coq models."""
+import vlib
 from harness import fam_rle, fam_rle2
 TRUSTED = fam_rle.TRUSTED
 ASSUME = ["integer values; float dtypes (NaN, -0.0) are covered by the bit-pattern instance in the thorough tier of the final framework"]
 RULE = "case kinds: rt slice bin concat (representation = canonical form); " + fam_rle.RULE
+
+def translator_tie():
+    return vlib.translator_tie(["rle"])
+
 def run(R, tier, rng):
     fam_rle2.run_c14(R, tier, rng)
     fam_rle.run_family(R, tier, rng, set("rt slice bin concat".split()))
